@@ -354,34 +354,68 @@ def base_discovery_scenario(viol):
         pr.destroy()
 
 
+def base_canon_table(paths):
+    """Union of canon_table over directory names (each given as the absolute directory plus a dummy final component)."""
+    seen = {}
+    for p in paths:
+        t = canon_table(p)
+        if t != "!":
+            for e in t.split(";"):
+                seen[e] = 1
+    return ";".join(seen) or "!"
+
+
 def base_level(ctx, rng, viol):
     """Project-base discovery, model vs implementation: random small trees with `.redo` directories placed at random
-    levels, a random working directory, one to three existing source files named through random spellings (`..` through
-    sibling directories, `.`, doubled slashes, absolute); `redo-ifchange` is run and the directory whose `.redo` then holds
-    the database is compared with `Base.baseOf`."""
+    levels and two symbolic links to directories (`lnk -> a`, `e/back -> ../a/b`), a random working directory, one to
+    three existing source files named through random spellings (`..` through sibling directories, `.`, doubled slashes,
+    absolute, through the links); `redo-ifchange` is run and the directory whose `.redo` then holds the database is
+    compared with `Base.baseOf` (the OS's canonicalisation is a parameter of the model).  Model-free monitor: the same
+    command with every target spelled by its physical absolute path, in an identical second tree, must use the same
+    directory — which database a command uses must not depend on how its targets are spelled."""
     from proj import Project
-    stats = dict(commands=0, with_dotdot=0, redo_above=0, created_new=0)
+    stats = dict(commands=0, with_dotdot=0, through_symlink=0, redo_above=0, created_new=0)
     dirs_all = ["", "a", "a/b", "a/b/c", "a/d", "e", "e/f"]
-    for i in range(60 if ctx["tier"] == "thorough" else 14):
+    links = {"lnk": "a", "e/back": "../a/b"}          # link -> destination (relative to the link's directory)
+    via = {"a": ["lnk"], "a/b": ["lnk/b", "e/back"], "a/b/c": ["lnk/b/c", "e/back/c"], "a/d": ["lnk/d"]}
+
+    def make_tree(pr, redos):
+        for d in dirs_all:
+            os.makedirs(pr.path(d), exist_ok=True)
+            pr.write(os.path.join(d, "src.txt"), "x")
+        for l, dst in links.items():
+            os.symlink(dst, pr.path(l))
+        for d in redos:
+            os.makedirs(pr.path(d, ".redo"), exist_ok=True)
+
+    def used_dirs(pr):
+        have = sorted(os.path.relpath(d, pr.root) for d, ds, fs in os.walk(pr.root) if os.path.basename(d) == ".redo" and "db.sqlite3" in fs)
+        return [os.path.dirname(h) for h in have]
+
+    for i in range(60 if ctx["tier"] == "thorough" else 16):
         pr = Project()
+        pr2 = Project()
         try:
-            for d in dirs_all:
-                os.makedirs(pr.path(d), exist_ok=True)
-                pr.write(os.path.join(d, "src.txt"), "x")
             redos = [d for d in dirs_all if rng.random() < 0.25]
-            for d in redos:
-                os.makedirs(pr.path(d, ".redo"), exist_ok=True)
+            make_tree(pr, redos)
+            make_tree(pr2, redos)
             cwd = rng.choice(dirs_all)
             cwd_abs = pr.path(cwd) if cwd else pr.root
             tdirs = [rng.choice(dirs_all) for _ in range(rng.randint(1, 3))]
-            sps = []
+            sps, plain = [], []
             for td in tdirs:
                 real = os.path.join(pr.root, td, "src.txt") if td else os.path.join(pr.root, "src.txt")
+                plain.append(real)
                 form = rng.random()
-                if form < 0.3:
+                if form < 0.2:
                     sp = real
-                elif form < 0.6:
+                elif form < 0.4:
                     sp = os.path.relpath(real, cwd_abs)
+                elif form < 0.7 and td in via:
+                    # through a symbolic link to a directory, absolute or relative to the working directory
+                    thr = os.path.join(pr.root, rng.choice(via[td]), "src.txt")
+                    sp = thr if rng.random() < 0.5 else os.path.join(os.path.relpath(pr.root, cwd_abs), os.path.relpath(thr, pr.root))
+                    stats["through_symlink"] += 1
                 else:
                     # through a sibling directory and back, with noise
                     other = rng.choice([x for x in dirs_all if x])
@@ -391,24 +425,35 @@ def base_level(ctx, rng, viol):
                 sps.append(sp)
             rc, o, e = pr.run(["redo-ifchange"] + sps, cwd=cwd or ".")
             stats["commands"] += 1
-            have = sorted(os.path.relpath(d, pr.root) for d, ds, fs in os.walk(pr.root) if os.path.basename(d) == ".redo" and "db.sqlite3" in fs)
-            used = [os.path.dirname(h) for h in have]
-            req = "base-of %s %s %s" % (hx(cwd_abs), ",".join(hx(pr.path(d) if d else pr.root) for d in redos) or "-", ",".join(hx(x) for x in sps))
+            used = used_dirs(pr)
+            # the same command with physical spellings in the twin tree
+            rc2, o2, e2 = pr2.run(["redo-ifchange"] + [x.replace(pr.root, pr2.root) for x in plain], cwd=cwd or ".")
+            used2 = used_dirs(pr2)
+            shown = " ".join(x.replace(pr.root, "$ROOT") for x in sps)
+            if rc == 0 and rc2 == 0 and used != used2:
+                p = write_replay("C15", "base-spelling", dict(kind="impl-monitor", clause="every spelling of a path denotes the same target: one database record", cwd=cwd or ".", redo_dirs=redos, links=links,
+                                                              spellings=[x.replace(pr.root, "$ROOT") for x in sps], physical=[x.replace(pr.root, "$ROOT") for x in plain], database_used=used, database_used_with_physical_spellings=used2))
+                viol.append(Violation("C15", p, "project base depends on the spelling: `redo-ifchange %s` run in %s (.redo in %r; lnk -> a, e/back -> ../a/b) uses the database in %r, the same files named by their physical paths use %r" % (shown, cwd or ".", redos, used, used2)))
+                return stats
+            # what realdirpath asks the OS: the directory of every target as spelled (absolute), with a dummy final component
+            ctab = base_canon_table([(os.path.dirname(sp) if sp.startswith("/") else os.path.join(cwd_abs, os.path.dirname(sp))).rstrip("/") + "/_" if os.path.dirname(sp) else cwd_abs + "/_" for sp in sps])
+            req = "base-of %s %s %s %s" % (hx(cwd_abs), ",".join(hx(pr.path(d) if d else pr.root) for d in redos) or "-", ",".join(hx(x) for x in sps), ctab)
             m = run_lines(MODEL, [req])[0]
             want = unhx(m).decode() if m != "bad-op" else m
             want_rel = os.path.relpath(want, pr.root) if want.startswith("/") else want
             want_rel = "" if want_rel == "." else want_rel
-            if want_rel in redos or any(pr.path(want_rel).startswith(pr.path(r)) for r in redos if r == want_rel):
+            if want_rel in redos:
                 stats["redo_above"] += 1
             else:
                 stats["created_new"] += 1
             if rc != 0 or used != [want_rel]:
                 p = write_replay("C15", "base-level", dict(kind="model-vs-impl", layer="Base.baseOf (Env::init)", request=req, cwd=cwd or ".", redo_dirs=redos, spellings=[x.replace(pr.root, "$ROOT") for x in sps],
                                                            model=want_rel or ".", implementation=used, rc=rc, stderr=e[-300:]))
-                viol.append(Violation("C15", p, "project base: `redo-ifchange %s` run in %s with .redo in %r used the database in %r, the model says %r" % (" ".join(x.replace(pr.root, "$ROOT") for x in sps), cwd or ".", redos, used, want_rel or "."), no_input=True))
+                viol.append(Violation("C15", p, "project base: `redo-ifchange %s` run in %s with .redo in %r used the database in %r, the model says %r" % (shown, cwd or ".", redos, used, want_rel or "."), no_input=True))
                 return stats
         finally:
             pr.destroy()
+            pr2.destroy()
     return stats
 
 
